@@ -21,6 +21,7 @@ def main():
     ap.add_argument("seed_dir")
     ap.add_argument("--checks")
     ap.add_argument("--seeds", default="0,1")
+    ap.add_argument("--tag", default="b")
     a = ap.parse_args()
     sd = Path(a.seed_dir)
     meta = json.loads((sd / "meta.json").read_text())
@@ -36,7 +37,7 @@ def main():
     confirmed = res.get("demo_pristine_rc") == 0 and res.get("demo_changed_rc") == 0 and res.get("suite_rc") == 0
     quiet = all(r["rc"] == 0 for rs in res["checks"].values() for r in rs)
     slug = re.sub(r"[^a-z0-9]+", "-", meta.get("title", "change").lower()).strip("-")[:48]
-    name = f"{meta.get('property', 'CXX')}-b-{sd.name}-{slug}"
+    name = f"{meta.get('property', 'CXX')}-{a.tag}-{sd.name}-{slug}"
     print(json.dumps({"name": name, "confirmed": confirmed, "quiet": quiet, "demo": [res.get("demo_pristine_rc"), res.get("demo_changed_rc")], "suite": res.get("suite_tail"),
                       "checks": {c: [(r["seed"], r["rc"], r["keys"][:4]) for r in rs] for c, rs in res["checks"].items()}}))
     if not confirmed:
